@@ -19,7 +19,7 @@ var (
 	seed = flag.Uint64("seed", 1, "PRNG seed")
 	n    = flag.Int("n", 200, "number of scenarios")
 	out  = flag.String("out", "", "output JSONL")
-	par  = flag.Int("par", 300, "scenarios running at the same time")
+	par  = flag.Int("par", 600, "scenarios running at the same time")
 )
 
 func main() {
